@@ -2,14 +2,14 @@
 # usage: bin/confirmseed.sh <PROP> [tiers...] - applies /tmp/seed-<PROP>/seed_out/patch.diff to /repo, runs the pinned baseline, the demo
 # and the property's check(s), reverts; prints a summary.  (demo is also run on the unchanged tree afterwards)
 p=$1; shift; tiers=${*:-quick}
-wt=/tmp/seed-$p
+wt=${WT:-/tmp/seed-$p}
 git -C /repo apply $wt/seed_out/patch.diff || exit 2
 # (the first run after a revert of the tracked build directory may rebuild while tests run: repeat once on failure)
 /verif/bin/baseline.sh > /verif/.work/confirm-baseline.log 2>&1 || /verif/bin/baseline.sh > /verif/.work/confirm-baseline.log 2>&1
 grep "tests passed\|tests failed" /verif/.work/confirm-baseline.log | head -2
-(cd $wt/seed_out && sh demo/run.sh /repo/_build > /verif/.work/demo-$p-patched.log 2>&1; echo "demo patched: $?")
+(cd $wt/seed_out && bash demo/run.sh /repo/_build > /verif/.work/demo-$p-patched.log 2>&1; echo "demo patched: $?")
 for t in $tiers; do /verif/bin/verif check $p --tier $t > /verif/.work/seedtest-$p-$t.log 2>&1; echo "$t check rc=$? viol=$(grep -c '^VIOLATION' /verif/.work/seedtest-$p-$t.log)"; done
 git -C /repo checkout -- .
 /verif/bin/verif build plain >/dev/null 2>&1
 (cd /repo/_build && cmake --build . >/dev/null 2>&1)
-(cd $wt/seed_out && sh demo/run.sh /repo/_build > /verif/.work/demo-$p-clean.log 2>&1; echo "demo unchanged: $?")
+(cd $wt/seed_out && bash demo/run.sh /repo/_build > /verif/.work/demo-$p-clean.log 2>&1; echo "demo unchanged: $?")
